@@ -161,6 +161,7 @@ class Kernel:
         self.tg: Any = None
         self.opidx = -1
         self.pair_fns: dict[int, Any] = {}
+        self.scope_fns: dict[int, list[Any]] = {}
         self.inject_ctx: dict[int, int | None] = {}
         self.helper_results: list[tuple[int, int, list[str]]] = []   # (opidx, task, result) of finished async lookups
         self.gen_calls: list[tuple[int, int, int, int | None]] = []  # (opidx, ctx, fid, task) of factory calls
@@ -359,7 +360,8 @@ class Kernel:
         "str604b": "'None | T{ty}'",
     }
 
-    def build_function(self, params: list[dict[str, Any]], is_async: bool, future: bool = True) -> Any:
+    def build_function(self, params: list[dict[str, Any]], is_async: bool, future: bool = True,
+                       local_names: bool = False) -> Any:
         """params: name, kind (posonly|normal|kwonly), dflt (none|value|marker|uncalled), mname,
         annot (form or None), ty."""
         import asphalt.core as ac
@@ -367,7 +369,12 @@ class Kernel:
         def render(p: dict[str, Any]) -> str:
             s = p["name"]
             if p.get("annot"):
-                s += ": " + self.ANNOT[p["annot"]].format(ty=p.get("ty", 0), ty2=(p.get("ty", 0) + 1) % NTYPES)
+                a = self.ANNOT[p["annot"]].format(ty=p.get("ty", 0), ty2=(p.get("ty", 0) + 1) % NTYPES)
+                if local_names:
+                    import re
+
+                    a = re.sub(r"T(\d)", r"L\1", a)
+                s += ": " + a
             d = p.get("dflt", "none")
             if d == "value":
                 s += " = 5"
@@ -382,7 +389,8 @@ class Kernel:
         kwonly = [render(p) for p in params if p["kind"] == "kwonly"]
         sig = ", ".join(pos + (["/"] if pos else []) + normal + (["*"] if kwonly else []) + kwonly)
         src = f"{'async ' if is_async else ''}def fn({sig}):\n    return dict(locals())\n"
-        ns: dict[str, Any] = {f"T{i}": t for i, t in enumerate(TYPES)}
+        # (with local_names the classes are NOT in the function's globals: only the decorating frame's locals have them)
+        ns: dict[str, Any] = {} if local_names else {f"T{i}": t for i, t in enumerate(TYPES)}
         ns.update({"resource": ac.resource, "Optional": typing.Optional, "Union": typing.Union})
         # with / without `from __future__ import annotations` in the defining module: annotations are
         # all strings, or real objects that may still contain quoted forward references
@@ -410,9 +418,8 @@ class Kernel:
             return ["warnNoInject"]
         return ["ok"]
 
-    async def do_inject(self, cmd: dict[str, Any]) -> list[str]:
-        import asphalt.core as ac
-
+    @staticmethod
+    def params_of(cmd: dict[str, Any]) -> list[dict[str, Any]]:
         params = []
         for o in cmd["others"]:
             params.append({"name": o["name"], "kind": o["kind"], "dflt": "value" if o["has_default"] else "none"})
@@ -421,7 +428,32 @@ class Kernel:
                            "annot": d.get("form", "plain"), "ty": d["ty"]})
         # parameters without defaults must precede those with defaults among positional ones
         params.sort(key=lambda p: (p["kind"] != "normal", p["kind"] == "normal" and p["dflt"] != "none"))
-        if "pair" in cmd and cmd["pair"] in self.pair_fns:
+        return params
+
+    def decorate_in_one_scope(self, mates: list[dict[str, Any]]) -> list[Any]:
+        """Several injected functions defined and decorated inside one enclosing function, all before any of them is
+        called; their (string) annotations name classes that exist only as locals of that function."""
+        import asphalt.core as ac
+
+        fns = [self.build_function(self.params_of(m), m["async"], True, local_names=True) for m in mates]
+        for f in fns:
+            f.__qualname__ = "enclosing.<locals>.fn"    # what `def fn(...)` written inside `enclosing` would have
+
+        def enclosing() -> list[Any]:
+            L0, L1, L2, L3 = TYPES[:4]  # noqa: F841, N806 - looked up through this frame's locals by inject()
+            return [ac.inject(f) for f in fns]
+
+        return enclosing()
+
+    async def do_inject(self, cmd: dict[str, Any]) -> list[str]:
+        import asphalt.core as ac
+
+        params = self.params_of(cmd)
+        if "scope" in cmd:
+            if cmd["scope"] not in self.scope_fns:
+                self.scope_fns[cmd["scope"]] = self.decorate_in_one_scope(cmd["mates"])
+            fn = self.scope_fns[cmd["scope"]][cmd["me"]]
+        elif "pair" in cmd and cmd["pair"] in self.pair_fns:
             fn = self.pair_fns[cmd["pair"]]     # the very same decorated function as the other call of the pair
         else:
             fn = ac.inject(self.build_function(params, cmd["async"], cmd.get("future", True)))
@@ -772,8 +804,13 @@ class Worker:
 
                     inner = kern.make_cb({**cmd["cb"], "async": False}, cmd["c"])
 
+                    sub = kern.ctxs.get(cmd["enterSub"]) if cmd.get("enterSub") is not None else None
+
                     @context_teardown
                     async def gen() -> Any:
+                        if sub is not None:
+                            # the first half opens a sub-context of its own and keeps it open (and current)
+                            await sub.__aenter__()
                         exc = yield
                         try:
                             await checkpoint()
@@ -787,7 +824,7 @@ class Worker:
                         await gen()
                     except Exception as e:  # noqa: BLE001
                         return kern.exc_out(e)
-                    return ["ok"]
+                    return ["ok", "ok"] if sub is not None else ["ok"]
                 cb: Any = kern.make_cb(cmd["cb"], cmd["c"]) if cmd["callable"] else ["not callable", 0, "", ()][cmd["cb"]["id"] % 4]
                 return kern.guard(lambda: target.add_teardown_callback(cb, cmd["cb"]["pass"]))
             if op == "parent":
